@@ -434,6 +434,7 @@ class Ctx:
         self.const_cache = {}
         self.positive = set()  # atom names assumed > 0 (declared by the rule, listed in evidence)
         self.expand_minmax = False  # min/max as case splits (decidable bounds reasoning)
+        self.strict_pow_domain = False  # True: keep powf(x, 1/3) distinct from cbrt(x) (they differ for x < 0)
         self.int_ranges = {}  # atom name -> (lo, hi) for integer-typed inputs (declared by the rule)
 
     # constructors ---------------------------------------------------------
@@ -532,7 +533,8 @@ class Ctx:
                     args = [-a0]
         if name == "powf" and isinstance(args[1], RatFunc) and args[1].is_const():
             e = args[1].const_value()
-            if e == Fraction(1, 3):
+            if e == Fraction(1, 3) and not self.strict_pow_domain:
+                # powf(x, 1/3) = cbrt(x) only for x >= 0 (powf of a negative base is NaN): sibling comparisons switch the rewrite off
                 return self.app("cbrt", [args[0]])
             if e == Fraction(1, 2):
                 return self.app("sqrt", [args[0]])
